@@ -37,6 +37,9 @@ A_ASI = [
     'a', '1', LF, ';', '++', '(', ')', '[', ']', '/', '{', '}', 'return',
     'break', 'continue', 'throw', 'var', '=', 'if', 'else', 'do', 'while',
     'for', '+', '/*\n*/', '/*c*/', '//c\n', 'function',
+    # a token that SPANS a line break (string with a line continuation): what
+    # follows it on its last line is not preceded by a line terminator
+    "'x\\\ny'",
 ]
 A_ASI_CORE = [
     'a', LF, ';', '++', '(', ')', '{', '}', 'return', 'break', 'throw',
